@@ -22,6 +22,7 @@ def loose_key(key):
     k = key[key.index("["):] if "[" in key else key
     # (the set of unguarded kinds stays part of the key: a site that lost a guard is a different - worse - finding, not a moved one)
     k = _re.sub(r"#(\D+)\d+$", r"#\1", k)
+    k = _re.sub(r"#(closure|for)@", "#loop@", k)   # the same walk over the members, written as an iterator chain or as a loop
     k = _re.sub(r"->expr_to_source#?$", "->expr_to_source", k)
     return k
 
